@@ -7,7 +7,16 @@ import z3
 
 def prove_schemas(timeout_ms=20000):
     a, b, k = z3.Ints("a b k")
+    a1, a2, a3, q1, q2, q3 = z3.Ints("a1 a2 a3 q1 q2 q3")
+
+    def quot(q, x):
+        return z3.And(q * b <= x, x < (q + 1) * b)
+
     schemas = {
+        "quotient-monotone: b>=1, q1=a1 div b, q2=a2 div b, a1<=a2 -> q1<=q2":
+            z3.Implies(z3.And(b >= 1, quot(q1, a1), quot(q2, a2), a1 <= a2), q1 <= q2),
+        "quotient-additive: b>=1, a1==q1*b, q3=a3 div b, q2=(a1+a3) div b -> q2==q1+q3":
+            z3.Implies(z3.And(b >= 1, a1 == q1 * b, quot(q3, a3), quot(q2, a1 + a3)), q2 == q1 + q3),
         "mul-mod: b != 0 -> (b*k) % b == 0": z3.Implies(b != 0, (b * k) % b == 0),
         "mul-div: b != 0 -> (b*k) div b == k": z3.Implies(b != 0, (b * k) / b == k),
     }
